@@ -354,6 +354,37 @@ fn bump2(r: bool) -> bool { cnt = cnt * 10 + 2; return r; }
 		defect: "WGSL defines x << n as a shift by n mod 32; naga emits a raw GLSL shift, undefined for n >= 32 (GLSL 4.60 section 5.9)",
 	},
 	{
+		name: "zero-values-and-let-snapshot",
+		wgsl: hdrI + `
+struct S { a: i32, v: vec3<f32>, arr: array<vec2<u32>, 2>, m: mat2x2<f32> }
+@compute @workgroup_size(1) fn main() {
+	var s = S(); var arr = array<i32, 3>(); var m = mat3x2<f32>(); var v = vec4<i32>(); var b = bool(); var u = u32(); var f = f32();
+	o[0] = s.a + i32(s.v.z) + i32(s.arr[1].y) + i32(s.m[1][1]) + arr[2] + i32(m[2].y) + v.w + i32(b) + i32(u) + i32(f) + 1;
+	var x = a[0]; let snap = x; x = 5; o[1] = snap; o[2] = x;
+	let sv = s; s.a = 9; o[3] = sv.a + s.a;
+	var w = vec2<i32>(1, 2); let ws = w.yx; w.x = 7; o[4] = ws.y * 10 + w.x;
+	let e = a[1] + x; x = 0; o[5] = e;
+}`,
+		in:   bmap{bd(0, 0): i32s(3, 4), bd(0, 1): zeros(24)},
+		want: bmap{bd(0, 1): i32s(1, 3, 5, 9, 17, 9)},
+	},
+	{
+		name: "bool-vectors",
+		wgsl: hdrI + `@compute @workgroup_size(1) fn main() {
+			let v = vec3<i32>(a[0], a[1], a[2]); let w = vec3<i32>(a[3], a[4], a[5]);
+			let p = v < w; let q = v == w;                 // (T,F,F) (F,T,F)
+			let r = p & q; let s = p | q; let e = p == q; let n = p != q;
+			o[0] = i32(all(r)) + i32(any(s)) + i32(all(e)) + i32(any(n));
+			let bs = select(false, true, a[0] > 0); let t = vec2<bool>(bs, !bs); o[1] = i32(t.x) + i32(t.y) * 10;
+			let u = vec3<u32>(p); let f = vec3<f32>(q); let i = vec3<i32>(s); o[2] = i32(u.x) + i32(f.y) * 10 + i.z * 100;
+			let sc = ((a[0] > 1) & (a[1] > 1)) | (a[2] > 1); o[3] = i32(sc);
+			var pv = vec3<bool>(); pv.y = true; o[4] = i32(pv.y) + i32(pv.x) * 10;
+			let neg = -v; let cmpl = ~v; let um = -(w.x); o[5] = neg.x + cmpl.y + um;
+		}`,
+		in:   bmap{bd(0, 0): i32s(1, 5, 3, 2, 5, 1), bd(0, 1): zeros(24)},
+		want: bmap{bd(0, 1): i32s(2, 1, 11, 1, 1, -9)},
+	},
+	{
 		name: "mat-times-abstract-literal",
 		wgsl: hdrF + `@compute @workgroup_size(1) fn main() {
 			let m = mat2x2<f32>(a[0], a[1], a[2], a[3]);
